@@ -1,8 +1,11 @@
 """C08 — translation depends on the decoded module, not on its byte encoding.
 
-Obligations: theorems of Props/C08.lean (LEB128 decoders on every spec encoding; section framing; per-section
-round trips; flag-0/flag-2 data segments; absent = empty) over Model.Leb / Model.Reader, whose constants are
-regenerated from the C source into Gen/Reader.lean on every run.
+Obligations: theorems of Props/C08.lean (LEB128 decoders on every spec encoding; section framing; round trips of the
+type/function/table/memory/start/data-count sections; flag-0/flag-2 data segments; absent = empty) and of
+Props/C08Sections.lean (round trips of the import/global/export/element/code/data/custom/name sections against the
+grammar of Spec/BinarySections.lean; `read_encode_roundtrip` for all 13 kinds of section through the dispatcher;
+`module_roundtrip`, `module_encodings_agree` for whole files; `data_flag0_eq_flag2`) over Model.Leb / Model.Reader,
+whose constants are regenerated from the C source into Gen/Reader.lean on every run.
 Ties:  `leb`          leb128.h in-process (exhaustive ≤ 2 bytes, all continuation patterns ≤ 11 bytes, random)
        `reader-dump`  the real reader.c linked into a dump harness vs `readerdriver read` on wasmgen modules
                       re-encoded with padded LEBs / customs at every boundary / data flags / empty sections,
@@ -25,7 +28,7 @@ from common import prove, leanchecker
 from vlib import log
 
 PROP = "C08"
-MODULES = ["W2c2Verif.Props.C08"]
+MODULES = ["W2c2Verif.Props.C08", "W2c2Verif.Props.C08Sections"]
 GENS = [("Reader", "gen_reader")]
 READERDRIVER = os.path.join(vlib.LEAN, ".lake", "build", "bin", "readerdriver")
 
